@@ -472,6 +472,23 @@ def ovec_txn_exhaustive(maxlen, alpha=None):
     return cases
 
 
+TXN_ENTRY_ALPHA = ["t.set(1,5)", "t.set(0,6)", "t.eset(1,7)", "t.remove(0)", "t.pop_front", "t.push_front(8)",
+                   "t.insert(0,9)", "t.eremove(0)", "t.eremove(1)", "t.each[r]", "t.each[k,r]", "t.each[s3,k,t4]"]
+
+
+def ovec_txn_entries(maxlen):
+    """transaction bodies mixing index-addressed sets, index shifts and entry removals (what is recorded
+    into the batch when an element is replaced, moved and another one removed through its entry)"""
+    cases = []
+    for n in range(1, maxlen + 1):
+        for body in itertools.product(TXN_ENTRY_ALPHA, repeat=n):
+            b = " ; ".join(body)
+            for sub in ("p", "b"):
+                for end in ("tc", "td"):
+                    cases.append("cap=16 :: append[1,2,3,4] ; sub(%s) ; tb ; %s ; %s ; get ; drain(0) ; push_back(99) ; drain(0)" % (sub, b, end))
+    return cases
+
+
 def ovec_traversal_exhaustive(maxlen):
     """every decision sequence (keep / set / remove / set-then-remove / stop) over vectors of <= maxlen items,
     directly and inside a transaction; plus every index 0..len+1 for every mutator and entry()"""
@@ -988,8 +1005,9 @@ def aobs_exhaustive(maxlen, nsubs):
     """every history of <= maxlen calls over write/read/set/get/next/next_ref/stream/next_now plus
     gset/gdrop on the guards obtained earlier; all guards still held are dropped at the end."""
     cases = []
-    base = ["write", "read", "set", "get"] + AOBS_WRITERS
-    for k in range(nsubs):
+    base = ["write", "read", "set", "get", "subscribe"] + AOBS_WRITERS
+    # subscribers 0..nsubs-1 exist from the start; index nsubs is the first one created by `subscribe`
+    for k in range(nsubs + 1):
         base += ["next(%d)" % k, "next_ref(%d)" % k, "stream(%d)" % k, "next_now(%d)" % k]
 
     def finish(ops, wg, rg):
@@ -1039,9 +1057,9 @@ def aobs_random(rng, n, minlen=8, maxlen=30):
                 ops.append(rng.choice(("set_if_not_eq(%d)" % v, "set_if_not_eq(%d)" % v, "set_if_hash_not_eq(%d)" % v, "take",
                                        "update(%d)" % v, "update_if(%d,0)" % v, "update_if(%d,1)" % v)))
             elif r < 0.4:
-                ops.append("get")
+                ops.append(rng.choice(("get", "subscribe")))
             elif r < 0.7:
-                ops.append("%s(%d)" % (rng.choice(("next", "next_ref", "stream", "next_now", "next", "next_ref")), rng.randrange(nsubs)))
+                ops.append("%s(%d)" % (rng.choice(("next", "next_ref", "stream", "next_now", "next", "next_ref")), rng.randrange(nsubs + 2)))
             elif r < 0.82 and wg:
                 ops.append("gset(%d,%d)" % (rng.choice(wg), i + 1))
             elif wg or rg:
@@ -1059,8 +1077,8 @@ def aobs_random(rng, n, minlen=8, maxlen=30):
 def aobs_sandwich(nsubs=1, quick=False):
     """write ; X ; Y ; gset ; gdrop ; Z ; W  for all calls X Y Z W: futures queued behind a held write
     guard (in both orders), an update through the guard, release, and two follow-up calls."""
-    base = ["write", "read", "set(%d)", "get"] + AOBS_WRITERS
-    for k in range(nsubs):
+    base = ["write", "read", "set(%d)", "get", "subscribe"] + AOBS_WRITERS
+    for k in range(nsubs + 1):
         base += ["next(%d)" % k, "next_ref(%d)" % k, "stream(%d)" % k, "next_now(%d)" % k]
     cases = []
     after = [b for b in base if not quick or b.split("(")[0] in ("set", "get", "next", "next_ref", "stream", "next_now", "take")
